@@ -836,7 +836,6 @@ func c19Fixtures(c *eng.Ctx) {
 	}
 }
 
-
 // ---------------------------------------------------------------------------------------
 // Added after seeded change C19-1: every loaded/flushed item is its own object.
 func c19Fresh(c *eng.Ctx) {
